@@ -357,6 +357,7 @@ pub fn run(ctx: &Ctx) -> Outcome {
     let cfg = TapeCfg::new(ctx, 300, 20_000, 600);
     out.shards = cfg.shards;
     out.absorb(tape_search(ctx, "main", &cfg, check, describe));
+    out.assumptions.push("interrupt sources are harness devices polled once per step; handlers and the TRAP x30 service routine are installed by the harness in supervisor memory x1000-x10FF, which the pinned OS image does not use".into());
     out.essential = ["exhaustive-single-placement", "exhaustive-double-placement", "random-schedule", "taken-in-user-code", "taken-inside-trap-routine", "nested-interrupt", "masked-request", "two-pending-same-boundary", "trap-inside-interrupt-handler", "keyboard-interrupts", "timer-interrupts"].iter().map(|s| s.to_string()).collect();
     out
 }
